@@ -122,11 +122,12 @@ class Ctx:
             raise Inconclusive("TLC simulation %s produced %d behaviours:\n%s" % (name, n, tail))
         return beh, n
 
-    def tlc_bfs_emit(self, name, module, cfg_text, timeout=900, workers=1):
+    def tlc_bfs_emit(self, name, module, cfg_text, timeout=900, workers=1, max_set=None):
         """bounded-exhaustive generation: BFS over the generator spec, every printed JSON line is one behaviour"""
         d = self._tlc_dir(name, cfg_text, name + ".cfg")
         outp = os.path.join(d, "bfs.out")
-        cmd = ["timeout", str(timeout), "tlc", "-workers", str(workers), "-metadir", os.path.join(d, "meta"), "-config", name + ".cfg", module + ".tla"]
+        cmd = (["timeout", str(timeout), "tlc", "-workers", str(workers), "-metadir", os.path.join(d, "meta")] + (["-maxSetSize", str(max_set)] if max_set else [])
+               + ["-config", name + ".cfg", module + ".tla"])
         with open(outp, "w") as f:
             subprocess.run(cmd, cwd=d, stdout=f, stderr=subprocess.STDOUT)
         beh = os.path.join(d, "beh.ndjson")
